@@ -91,7 +91,7 @@ P("C12",
        "non-trivial = some cell is displaced from its target (a conflict or clamp happened); "
        "distinct = hash of (b,e,pushes). Exhaustive part: every instance with segment length "
        "<= 7 (8 thorough), widths 1..3, <= 4 cells, targets in [-3,len+3], each enumerated "
-       "once (so distinct by construction) and judged against a brute-force DP and PAV.",
+       "once (so distinct by construction) and judged against a brute-force DP and PAV. A quarter of the cases run on a reused object (1..4 pushes, then clear()).",
   assumptions=["push(w,t) is only called when remainingSpace() >= w (the guard of its only caller)",
                "widths >= 1"])
 
@@ -106,7 +106,7 @@ P("C13",
        "through the scaling constructor; optimum from LEMON NetworkSimplex<long long>. non-trivial = the "
        "capacity-blind cheapest assignment is infeasible (optimum > sum demand*min cost), distinct = hash of "
        "the instance. Exhaustive part: all instances with 1..3 sinks x 1..3 sources, demands 1..2, capacities "
-       "1..3 (total capacity >= total demand), costs 0..2, against brute force over all plans.",
+       "1..3 (total capacity >= total demand), costs 0..2, against brute force over all plans. Half of the cases solve on an object with a history: an earlier solve(), an initial setAssignment() of every source to one sink, or both.",
   assumptions=["integer costs satisfy |c| <= INT_MAX/(4*nbSinks), the bound the float constructor's scaling establishes",
                "total demand <= total capacity when solve() is called (after increaseCapacity() where needed)"])
 
@@ -120,7 +120,7 @@ P("C14",
        "to 1e6, zero supplies and demands over-weighted, total supply <= total demand directly (exact or with "
        "slack) or through balanceDemand(); optimum from LEMON NetworkSimplex. non-trivial = the plan splits a "
        "source or a zero supply/demand is present; distinct = hash of the instance. Exhaustive part: 1..3 sources "
-       "x 1..3 sinks, positions 0..3, supplies and demands 0..2, against brute force over all plans.",
+       "x 1..3 sinks, positions 0..3, supplies and demands 0..2, against brute force over all plans. Half of the cases vary the call sequence: assign() before solve(), both called twice (answers must repeat), balanceDemand() twice.",
   assumptions=["at least one sink; the clause 'a sink of positive demand' is only required when some sink has positive demand"])
 
 
@@ -152,7 +152,7 @@ P("C15",
        "over blocked column ranges. non-trivial = an obstacle covers the row height only partially or two blocked "
        "ranges touch (for (b) additionally a movable or non-obstruction cell is present); distinct = hash of the case. "
        "Exhaustive part: row [0,4)x[0,2), all 420 grid rectangles on [-1,5]x[-1,3] incl. degenerate ones: every single "
-       "and unordered pair (quick), every unordered triple (thorough).",
+       "and unordered pair (quick), every unordered triple (thorough). Circuit mode continues as a history: 0..3 further setter calls on the same object (setCellX/Y, setSolution, setCellOrientation, setCellIsFixed/IsObstruction, setCellWidth/Height, setRows), each followed by a judged computeRows.",
   assumptions=["obstacle rectangles have minX<=maxX and minY<=maxY (sizes are non-negative)",
                "maximality of the returned segments is not required, only the covered column set"])
 
@@ -168,7 +168,7 @@ P("C09",
        "cells or a tape-ordered subset compared with a from-scratch one-axis HPWL after construction and after each "
        "of 0..40 position updates. non-trivial = a net of degree >= 2 touches a rotated or mirrored cell and (no "
        "updates or some update changed a net bound); distinct = hash of the circuit, subset and update count. "
-       "Exhaustive part: one cell (6 sizes) x 8 orientations x every pin offset in the outline +-1.",
+       "Exhaustive part: one cell (6 sizes) x 8 orientations x every pin offset in the outline +-1. At the 2^22 scale a quarter of the cases add 600..1800 far-reaching 2-3 pin nets (total wirelength beyond 32 bits).",
   assumptions=["position updates go to cells of the model, not to its fixed pseudo-cell",
                "|coordinates| <= 2^22 so that int arithmetic on pin positions cannot overflow"])
 
@@ -190,7 +190,7 @@ P("C01",
        "{obstruction intersecting a row, split row, multi-row cell, utilisation >= 80%, a start position outside the area}; "
        "distinct = hash of the circuit. Exhaustive part (small scope): three tiny row configurations x {no obstruction, "
        "1x1 obstruction} x every combination of 1..2 (3 thorough, from a reduced option set) movable cells of 4 sizes x 3 "
-       "polarities x 35 target positions x 2 ordering widths, each enumerated once.",
+       "polarities x 35 target positions x 2 ordering widths, each enumerated once. A third of the cases are judged a second time on a Circuit object that was legalized before with its fixed cells elsewhere and then set to the same contents through setCellX/Y/Orientation or setSolution; 1 case in 24 adds a large companion instance (up to 300 movable cells, 24 row levels).",
   assumptions=["rows are uniform-height and pairwise disjoint by construction; movable cells have placed height a positive multiple of the row height"])
 
 
@@ -204,7 +204,7 @@ P("C11",
        "x/y/orientation must be unchanged. non-trivial = >= 3 movable cells with two touching in a row or one adjacent "
        "to an obstruction; distinct = hash of the circuit. Exhaustive part (small scope): three tiny row configurations x {no "
        "obstruction, 1x1 obstruction} x all combinations of 1..2 row-high cells (3 widths x 3 polarities x 35 targets) and all "
-       "3-cell (4 thorough) combinations from a reduced set, legalized twice with orderingWidth pairs from {0.2,0.9}.",
+       "3-cell (4 thorough) combinations from a reduced set, legalized twice with orderingWidth pairs from {0.2,0.9}. Object histories: in a quarter of the cases every circuit of the case is not built fresh but reached on an object that was built with its fixed cells elsewhere, queried (computeRows, hpwl) and legalized, and then brought to the case's contents through setCellX/Y/Orientation or setSolution (same contents, other history).",
   assumptions=["designs with multi-row movable cells are outside the property"])
 
 
@@ -217,7 +217,7 @@ P("C04",
        "after legalize, inside every Detailed callback of placeDetailed and after it; cells without polarity must keep "
        "their orientation. non-trivial = a polarised cell ends on another row than the one closest to its start, or "
        "detailed placement moved a polarised cell to another row; distinct = hash of the circuit. Exhaustive part: "
-       "cellOrientationInRow / oppositeRowOrientation over 5 polarities x 10 enum values.",
+       "cellOrientationInRow / oppositeRowOrientation over 5 polarities x 10 enum values. Object histories: in a quarter of the cases every circuit of the case is not built fresh but reached on an object that was built with its fixed cells elsewhere, queried (computeRows, hpwl) and legalized, and then brought to the case's contents through setCellX/Y/Orientation or setSolution (same contents, other history). Rows are handed to the circuit in generated, reversed, rotated or shuffled order; 1 case in 32 adds a large companion instance (up to 150 movable cells).",
   assumptions=["segments that share a y share an orientation (by construction, as Circuit::report() requires)"])
 
 
@@ -233,7 +233,7 @@ P("C02",
        "judged after each. non-trivial = (a) >= 2 callbacks and some cell moved, (b) value() changed; distinct = hash of "
        "circuit (and pass count). Layer (c), exhaustive: every sequence of swap/insert operations up to depth 3 (4) from "
        "every legal initial placement of <= 3 (4) cells of width 1..2 (3) in three row configurations: canSwap/canInsert "
-       "true => the operation succeeds and an independent structural predicate holds, false => it throws and changes nothing.",
+       "true => the operation succeeds and an independent structural predicate holds, false => it throws and changes nothing. 1 case in 32 adds a large companion instance (up to 150 movable cells) through layer (a); a third of the cases are judged again through layer (a) with the rows handed over in another order (reversed / rotated / shuffled) on a Circuit object that was placed before with its fixed cells elsewhere and then set to the same contents through its setters.",
   assumptions=["runShifts is driven with maxNbCells >= 2 and runReordering with nbRows >= 1, the guards of their only caller",
                "insert(c,row,pred) is driven with pred = -1 or a cell of that row"])
 
@@ -246,7 +246,7 @@ P("C05",
        "be non-increasing and end at or below the value after legalize alone on an identical copy. Layer (b): "
        "DetailedPlacer on the legalized circuit driven by 1..12 generated passes: value() never increases, equals hpwl() "
        "of the exported placement while no orientation changed, and equals hpwl() after construction. non-trivial = the "
-       "wirelength strictly decreased at least once and a net of degree >= 3 exists; distinct = hash of the circuit.",
+       "wirelength strictly decreased at least once and a net of degree >= 3 exists; distinct = hash of the circuit. 1 case in 32 adds a large companion instance (up to 150 movable cells) through layer (a); a third of the cases are judged again through layer (a) with the rows handed over in another order (reversed / rotated / shuffled) on a Circuit object that was placed before with its fixed cells elsewhere and then set to the same contents through its setters.",
   assumptions=["Circuit::hpwl() is the measure (C09 pins it to geometry)"])
 
 
@@ -264,7 +264,7 @@ P("C06",
        "coordinate satisfies |v| <= 2^30 and float-cast-overflow stays silent; the returned coordinates equal "
        "(1-w) LB + w UB of the integer placements seen at the last LowerBound / UpperBound callbacks within "
        "0.5(|1-w|+|w|)+0.5+4ulp; no exception. non-trivial = >= 3 upper-bound steps, LB and UB differ by more than 4 units "
-       "for some cell, and a fixed cell exists; distinct = hash of the circuit.",
+       "for some cell, and a fixed cell exists; distinct = hash of the circuit. Object histories: in a quarter of the cases every circuit of the case is not built fresh but reached on an object that was built with its fixed cells elsewhere, queried (computeRows, hpwl) and legalized, and then brought to the case's contents through setCellX/Y/Orientation or setSolution (same contents, other history).",
   assumptions=["zero-area movable cells are in no density bin by design (C16) and are exempt from the centre-inside clause",
                "cases where the side margin removes every free segment are discarded (the degenerate case the property excludes)"])
 
@@ -278,7 +278,7 @@ P("C03",
        "generated index; 1 in 12 cases with a rejected parameter set. Oracle: a snapshot of every public getter is equal "
        "before and after each call, and inside every callback, for everything except x/y/orientation of movable cells "
        "(after placeGlobal all orientations too), whether the call returned or threw. non-trivial = a fixed cell carries a "
-       "pin and a movable cell moved, or a call ended in an exception; distinct = hash of circuit, flow and callback mode.",
+       "pin and a movable cell moved, or a call ended in an exception; distinct = hash of circuit, flow and callback mode. Object histories: in a quarter of the cases every circuit of the case is not built fresh but reached on an object that was built with its fixed cells elsewhere, queried (computeRows, hpwl) and legalized, and then brought to the case's contents through setCellX/Y/Orientation or setSolution (same contents, other history).",
   assumptions=["the class of known finding c06-unanchored-far-from-origin is excluded from the flows that run global placement"])
 
 
@@ -295,7 +295,7 @@ P("C10",
        "Circuit::check() passes and a further legalize behaves as on a fresh circuit with the same placement; after a failed "
        "legalization or rejected parameters the placement is bit-identical. non-trivial = K >= 3, or an infeasible "
        "legalization with >= 3 cells; distinct = hash of circuit and stage. class_histogram['fault-points'] is the number of "
-       "injected faults.",
+       "injected faults. Object histories: in a quarter of the cases every circuit of the case is not built fresh but reached on an object that was built with its fixed cells elsewhere, queried (computeRows, hpwl) and legalized, and then brought to the case's contents through setCellX/Y/Orientation or setSolution (same contents, other history).",
   assumptions=["only the setters named by the property's mechanism are required to refuse"])
 
 
@@ -346,7 +346,7 @@ P("C18",
        "regions (congestion 0..3): 1 for fixed cells and cells meeting no region with congestion > 1, else the max of "
        "(c-1)*penaltyFactor+fixedPenalty+1 (relative 1e-5). non-trivial = >= 2 movable cells of different heights with an "
        "obstruction or a margin removing >= 5% of the area and an actual expansion; for computeCellExpansion a cell meeting "
-       ">= 2 congested regions; distinct = hash of circuit and arguments.",
+       ">= 2 congested regions; distinct = hash of circuit and arguments. Each case continues as a history on the same object: up to two further steps (fixed cells moved or turned through setCellX/Y, setSolution or setCellOrientation; then one of the three calls again, the side margin reused with probability 2/3), every clause judged against the current contents.",
   assumptions=["zero-area movable cells are not judged by the computeCellExpansion clause ('intersects' is ambiguous for them)"])
 
 
@@ -362,7 +362,7 @@ P("C08",
        "other solve is held until the requested one has exited; jitter sleeps 0..3 ms on entry and exit), and a run pinned to "
        "one CPU. The tsan build of the same property runs the schedules under ThreadSanitizer with halt_on_error. non-trivial "
        "= global placement with >= 2 hooked solve pairs, >= 3 lower-bound steps and noise > 0; for the other stages a cell "
-       "moved; distinct = hash of circuit and stage.",
+       "moved; distinct = hash of circuit and stage. In half of the single-thread cases the stage is also run on a Circuit object that was placed before and then brought to a variant of the case (fixed cells moved) through its setters, and compared with the same contents built fresh.",
   assumptions=["the hook only delays threads, it never kills them; a wait that exceeds 20 s gives up and is counted",
                "xtopo_ is declared before ytopo_ in GlobalPlacer, so the lower address is the x model",
                "ThreadSanitizer judges the executions actually produced; an interleaving needing a pre-emption inside Eigen's CG loop is out of reach"])
@@ -383,7 +383,7 @@ P("C07",
        "float-cast-overflow, null), a non-std exception or a case that does not end within 60 s alone (3/3) is a violation. "
        "Engines: libFuzzer on the tape bytes (structure-aware through the decoder) plus rapidcheck workers, on the `san` "
        "build (assertions on) and the `sannd` build (NDEBUG). non-trivial = the case reached >= 2 stages or threw, at decade "
-       "or nanometre scale; distinct = hash of circuit, flow and shape.",
+       "or nanometre scale; distinct = hash of circuit, flow and shape. Object histories: in a quarter of the cases every circuit of the case is not built fresh but reached on an object that was built with its fixed cells elsewhere, queried (computeRows, hpwl) and legalized, and then brought to the case's contents through setCellX/Y/Orientation or setSolution (same contents, other history).",
   assumptions=["resource bounds of the harness: no positive cell height below half a row when global placement runs (bounds the bin count), maxNbSteps, reordering window <= 5 cells",
                "the class of known finding c06-unanchored-far-from-origin is excluded by construction and counted"])
 
